@@ -17,7 +17,7 @@ var defaultsByClass = map[string][]*Def{
 		lit("0.1000000000000000055511151231257827"), lit("123456789012345678901234567890.12"), raw("(1.5 * 2)")},
 	"str": {lit("'abc'"), lit("''"), lit("'it''s'"), lit(`'a"b'`), lit("'123'"), lit("'007'"), lit("'1.50'"), lit("'0x10'"), lit("'true'"),
 		lit("'null'"), lit("' '"), lit("'ünï ☃'"), lit(`'a\b'`), lit("'${x}'"), lit("'%{y}'"), lit("'a\nb'"), lit("abc"), lit("123"),
-		lit("007"), lit("1.50"), lit("1e3"), lit("true"), lit("a b"), lit(`"abc"`), lit(`"it's"`), lit("'"), lit("''''"), lit("x'"),
+		lit("007"), lit("1.50"), lit("1e3"), lit("true"), lit("a b"), lit("'"), lit("''''"), lit("x'"),
 		lit("0x1F"), lit("b'101'"), raw("concat('a', 'b')"), raw("'abc'::character varying"), raw("('a' || \"b\")")},
 	"enum": {lit("'a'"), lit("a"), lit("'a''b'"), lit("''"), lit("'1'"), lit("1"), raw("'a'::e0")},
 	"bool": {lit("true"), lit("false"), lit("TRUE"), lit("False"), lit("1"), lit("0"), lit("'1'"), lit("'t'"), raw("(1 = 1)")},
@@ -52,7 +52,8 @@ func colVariants(d string, class string) []colVariant {
 		vs = append(vs, colVariant{"default.null+" + d0.V, func(c *Col) { c.Null = true; c.Def = &Def{Raw: d0.Raw, V: d0.V} }})
 		vs = append(vs, colVariant{"default.named:" + d0.V, func(c *Col) { c.Def = &Def{Raw: d0.Raw, V: d0.V, Name: "df_cx"} }})
 	}
-	for _, cm := range comments {
+	// a few comments here; the catalogue runs the whole comment alphabet on column, table, index, schema.
+	for _, cm := range []string{comments[1], comments[3], comments[4], comments[5]} {
 		cm := cm
 		vs = append(vs, colVariant{"comment:" + cm, func(c *Col) { c.Comment = sp(cm) }})
 	}
